@@ -189,6 +189,18 @@ item('name_reply_codes', 'list N',
          client.NAME_ALREADY_OWNER, client.NAME_RELEASED,
          client.NAME_NON_EXISTENT, client.NAME_NOT_OWNER)))
 
+# ---- per-property plug-ins: tools/gen_tables_Cxx.py ---------------------------
+# Each is exec'd in this namespace (item, coq_N, coq_str, coq_list, coq_bool and
+# the imported modules are available) and adds its own item(...) entries.
+import glob as _glob
+for _plug in sorted(_glob.glob(os.path.join(os.path.dirname(os.path.abspath(__file__)), 'gen_tables_C*.py'))):
+    try:
+        with open(_plug) as _f:
+            exec(compile(_f.read(), _plug, 'exec'))
+    except Exception as _e:   # fail closed: the plug-in's items are missing -> lemmas stop checking
+        items.append(('plugin_error_' + os.path.basename(_plug)[:-3], 'option (N)',
+                      'None (* %s *)' % str(_e).replace('*', '+')[:80]))
+
 lines = [
     '(* GENERATED by tools/gen_tables.py from the txdbus tree under test. Do not edit. *)',
     'From Coq Require Import List NArith.',
